@@ -263,8 +263,13 @@ impl<R: Round> Context<R> {
                  * precision+1:  |<------>|
                  * shift:              |<>|
                  * expanded:     |========|xx|
+                 *
+                 * If an operand is longer than the precision, the padded digits can cancel
+                 * the leading digits again: the expansion is repeated until `precision`
+                 * digits stand in front of the rounding position.
                  */
-                if !low.0.is_zero() {
+                let mut digits = digits;
+                while digits < rnd_precision && !low.0.is_zero() {
                     let (low_val, low_prec) = low;
                     let shift = low_prec.min(rnd_precision - digits);
                     let (pad, low_val) = split_digits::<B>(low_val, low_prec - shift);
@@ -272,6 +277,14 @@ impl<R: Round> Context<R> {
                     exponent -= shift as isize;
                     significand += pad;
                     low = (low_val, low_prec - shift);
+
+                    // a low part of the other sign takes one unit away from the significand
+                    digits = digit_len::<B>(&significand);
+                    if digits >= self.precision
+                        && digit_len::<B>(&(&significand + low.0.signum())) >= self.precision
+                    {
+                        break;
+                    }
                 }
             }
         };
